@@ -135,11 +135,18 @@ def targets(tier):
           mk("blk_tinyB_mps8", "block", TINY_B, 8, False)]
     if tier != "quick":
         ts.append(mk("blk_tinyC_mps4", "block", TINY_C, 4, False))
+    ts.append(mk("dst_tinyA_mps4", "dist", TINY_A, 4, False))
+    if tier != "quick":
+        ts.append(mk("dst_tinyB_mps8", "dist", TINY_B, 8, False))
+        ts.append(mk("dst_tinyC_mps4", "dist", TINY_C, 4, False))
     ts.append(mk("blk_repo_mps64", "block", repo_test_collection(), 64, True))
+    ts.append(mk("dst_repo_mps64", "dist", repo_test_collection(), 64, True))
     nrand = 2 if tier == "quick" else 8
     for k in range(nrand):
         mps = [8, 16, 32, 64][k % 4]
-        ts.append(mk(f"blk_rand{k}_mps{mps}", "block", random_triples(r, mps), mps, True))
+        tri = random_triples(r, mps)
+        ts.append(mk(f"blk_rand{k}_mps{mps}", "block", tri, mps, True))
+        ts.append(mk(f"dst_rand{k}_mps{mps}", "dist", tri, mps, True))
     _cache[key] = ts
     return ts
 
